@@ -29,6 +29,32 @@ def norm(t):
     return trees.sort_attrs(trees.html_ns(t))
 
 
+_PREFIX = {"http://www.w3.org/1999/xlink": "xlink", "http://www.w3.org/XML/1998/namespace": "xml",
+           "http://www.w3.org/2000/xmlns/": "xmlns"}
+
+
+def minidom_collisions(tree):
+    """Emulation of ONE recorded deviation, used only to NAME a disagreement (never as the oracle): xml.dom.minidom
+    derives an attribute's localName by splitting its name at ':' and keeps one attribute per (namespaceURI,
+    localName), so on the same element 'a:b' and 'b' (both without namespace) evict each other; the later one wins."""
+    if isinstance(tree, tuple) and tree and tree[0] == "elem":
+        kept = []          # (nodeName, nskey, attr)
+        for (ns, name), value in tree[3]:
+            if ns is None:
+                node_name, nskey = name, (None, name.split(":", 1)[-1])
+            else:
+                pre = _PREFIX.get(ns)
+                node_name, nskey = ((pre + ":" + name) if pre else name), (ns, name)
+                if ns == "http://www.w3.org/2000/xmlns/" and name == "xmlns":
+                    node_name = "xmlns"
+            kept = [k for k in kept if k[0] != node_name and k[1] != nskey]
+            kept.append((node_name, nskey, ((ns, name), value)))
+        return ("elem", tree[1], tree[2], tuple(k[2] for k in kept), tuple(minidom_collisions(c) for c in tree[4]))
+    if isinstance(tree, tuple) and tree and isinstance(tree[0], tuple):
+        return tuple(minidom_collisions(c) for c in tree)
+    return tree
+
+
 def judge(text, container):
     """-> None | (what, diff_class, expected, actual)"""
     try:
@@ -37,6 +63,11 @@ def judge(text, container):
         return ("a builder raised %s: %s" % (type(e).__name__, str(e)[:100]), "raised:" + type(e).__name__, None, None)
     ref_key = ("dom", True)
     ref = norm(r[ref_key])
+    et = r[("etree-full", True)]
+    if norm(et) != ref and norm(minidom_collisions(et)) == ref and all(
+            norm(t) == norm(et) for k, t in r.items() if k[0] == "etree-full") and norm(r[("dom", False)]) == ref:
+        return ("the dom builder drops an attribute whose name collides, after splitting at ':', with another attribute of the "
+                "same element (etree keeps both)", "dom:colon-name-collision", norm(et), ref)
     for k, t in r.items():
         if k[0] == "etree-root":
             full = norm(r[("etree-full", k[1])])
@@ -114,6 +145,41 @@ def replay(harness, config, case):
     return execute(config, case)
 
 
+# -- ATTR part: every ordered pair of attribute names that can interact, on HTML and foreign hosts ----------------
+
+ATTR_NAMES = ["href", "xlink:href", "lang", "xml:lang", "a:b", "b", "xmlns:xlink", "xlink", "title", "xlink:title", ":b", "b:",
+              "xmlns", "definitionurl", "viewbox"]
+ATTR_HOSTS = ["<p %s>x", "<svg %s>x", "<math %s>x", "<svg><a %s>x", "<table %s><tr><td>x"]
+
+
+def attr_cases():
+    out = []
+    for host in ATTR_HOSTS:
+        for a in ATTR_NAMES:
+            out.append(host % ("%s=1" % a))
+            for b in ATTR_NAMES:
+                if a != b:
+                    out.append(host % ("%s=1 %s=2" % (a, b)))
+    return out
+
+
+def _attr_shard(texts):
+    out = []
+    for text in texts:
+        for container in (None, "div"):
+            j = judge(text, container)
+            out.append(None if j is None else engine.Violation(H, {"theme": "ATTR", "container": container}, text, j[2], j[3], j[0], j[1]))
+    return out
+
+
+def _names_shard(cases):
+    out = []
+    for text, cont in cases:
+        j = judge(text, cont)
+        out.append(None if j is None else engine.Violation(H, {"theme": "NAMES", "container": cont}, text, j[2], j[3], j[0], j[1]))
+    return out
+
+
 def run(run):
     quick = run.tier == "quick"
     depth = {"T1": 4, "T2": 5, "T3": 5, "T4": 4, "T5": 3, "T6": 3, "T7": 4, "T8": 3, "TU": 2} if quick else \
@@ -144,6 +210,27 @@ def run(run):
                 if k not in classes or len(v.case) < len(classes[k].case):
                     classes[k] = v
             run.sample({"theme": theme, "container": container, "text": tw.text_of(theme, tuple(range(2, 2 + dd)))})
+    if not only or "ATTR" in only.split(","):
+        cases = attr_cases()
+        n = 0
+        for vs in engine.pmap(_attr_shard, [cases[i:i + 100] for i in range(0, len(cases), 100)], chunksize=1):
+            for v in vs:
+                n += 1
+                if v is not None and (v.diff_class not in classes or len(v.case) < len(classes[v.diff_class].case)):
+                    classes[v.diff_class] = v
+        tot_t += n
+        per["ATTR"] = {"cases": n}
+        run.sample({"theme": "ATTR", "text": cases[7]})
+    if not only or "NAMES" in only.split(","):
+        cases = sorted(set((t, c) for t, c, s in tw.name_cases()), key=repr)
+        n = 0
+        for vs in engine.pmap(_names_shard, [cases[i:i + 300] for i in range(0, len(cases), 300)], chunksize=1):
+            for v in vs:
+                n += 1
+                if v is not None and (v.diff_class not in classes or len(v.case) < len(classes[v.diff_class].case)):
+                    classes[v.diff_class] = v
+        tot_t += n
+        per["NAMES"] = {"cases": n}
     for v in classes.values():
         run.violation(v)
     run.set("states", tot_s)
